@@ -8,7 +8,7 @@
 From Coq Require Import NArith List Bool String.
 From Verif Require Import Base.Chars Base.StrX Imports.Import Imports.ImportSet Imports.Format Imports.ImportLex
                           Imports.ImportProofs Imports.ImportLexProofs Imports.ImportSetProofs
-                          Imports.FormatProofs Imports.RoundTripProofs Imports.WidthProofs.
+                          Imports.FormatProofs Imports.RoundTripProofs Imports.WidthProofs Imports.FutureProofs Imports.CanonicalProofs.
 Import ListNotations.
 
 (* generic lexer lemma: rendering a token list with separators from {runs of >= 1 spaces, backslash-newline,
@@ -25,6 +25,17 @@ Theorem C11_print_lexes : forall P S out, wf_set S -> print_set P S = Some out -
     lex out = Some (block_toks bl).
 Proof. exact print_lexes. Qed.
 Print Assumptions C11_print_lexes.
+
+(* print_lexes with the token list made explicit: the flag "printed with parentheses" of each statement is the
+   computable pp_paren (a `from` statement other than a star import, exactly when pyfill's one-line test fails
+   at the column chosen by choose_column); sss is the structured reading of get_statements *)
+Theorem C11_print_lexes_explicit : forall P S out, wf_set S -> print_set P S = Some out ->
+  exists (col : option nat) (sss : list sstmt),
+    choose_column P (get_statements (separate_from_imports P) S) = inr col /\
+    map to_stmt sss = get_statements (separate_from_imports P) S /\
+    lex out = Some (block_toks (map (fun ss => (pp_paren P col (to_stmt ss), ss)) sss)).
+Proof. exact print_lexes_explicit. Qed.
+Print Assumptions C11_print_lexes_explicit.
 
 (* round trip of one statement through pyfill, for every width / indent / hanging / column / from_spaces *)
 Theorem C11_statement_roundtrip : forall P col fs ss, wf_sstmt ss -> fs <> 0 ->
@@ -48,6 +59,15 @@ Print Assumptions C11_roundtrip_stmts.
 Theorem C11_canonical_in : forall sep S x, wf_set S -> (In x (canonical sep S) <-> In x S).
 Proof. exact canonical_in. Qed.
 Print Assumptions C11_canonical_in.
+
+(* nothing duplicated: the re-parsed imports are a permutation of the set *)
+Theorem C11_canonical_NoDup : forall sep S, wf_set S -> NoDup (canonical sep S).
+Proof. exact canonical_NoDup. Qed.
+Print Assumptions C11_canonical_NoDup.
+
+Theorem C11_canonical_Permutation : forall sep S, wf_set S -> Permutation.Permutation (canonical sep S) S.
+Proof. exact canonical_Permutation. Qed.
+Print Assumptions C11_canonical_Permutation.
 
 (* reprint: formatting the re-parsed set reproduces the identical text (fixed point) *)
 Theorem C11_reprint : forall P S out S', wf_set S -> sorted_set S -> print_set P S = Some out ->
@@ -76,6 +96,16 @@ Print Assumptions C11_from_split_split.
 Theorem C11_from_imports_wf : forall b l, Forall wf_import l -> wf_set (from_imports b l).
 Proof. exact from_imports_wf. Qed.
 Print Assumptions C11_from_imports_wf.
+
+(* valid Python also means: the `from __future__ import ...` statement(s) come first in every printed block
+   (ast.parse does not see a late __future__ import, the compiler rejects it).  For all sets and params. *)
+Theorem C11_future_first_in_block : forall P S out, print_set P S = Some out ->
+  exists col fut rest,
+    get_statements (separate_from_imports P) S = fut ++ rest /\
+    Forall is_future_stmt fut /\ Forall (fun st => ~ is_future_stmt st) rest /\
+    out = List.concat (map (pp P col) fut) ++ List.concat (map (pp P col) rest).
+Proof. exact future_first_in_block. Qed.
+Print Assumptions C11_future_first_in_block.
 
 (* width.  The literal clause of the property
      forall P S out l, print_set P S = Some out -> In l (lines_of out) -> length l > width_of P -> alias_tokens_on l = 1
